@@ -25,7 +25,12 @@ T = {
  "C17-1": ("C17", "two analytic functions sharing PARTITION BY with different ORDER BY", "C17 (query 22)", True),
  "C17-2": ("C17", "ROWS frame that excludes the current row near a partition edge", "C17 (queries 20, 21, 23)", True),
 }
-exec(open(os.path.join(os.path.dirname(__file__), "seed_meta_round2.py")).read()) if os.path.exists(os.path.join(os.path.dirname(__file__), "seed_meta_round2.py")) else None
+# CHK: seed -> (check to run, harness filter) where the detecting check is not the seed's own property
+CHK = {"C03-2": ("C12", "ParallelJoin"), "C12-2": ("C13", "ParallelQueries"), "C11-2": ("C11", "Contention")}
+for extra in ("seed_meta_round2.py", "seed_meta_round3.py"):
+    f = os.path.join(os.path.dirname(__file__), extra)
+    if os.path.exists(f):
+        exec(open(f).read())
 for sid, (prop, needs, by, detected) in T.items():
     d = f"/verif/seeded/{sid}"
     if not os.path.isdir(d):
@@ -41,11 +46,13 @@ for sid, (prop, needs, by, detected) in T.items():
         "needs_to_manifest": needs,
         "demonstration": demo,
         "confirmed_by": "tools/confirm_seed.sh: patch applies to HEAD; go build and the full go test suite pass with it; the demonstration fails with it and passes without it",
-        "checked_with": f"tools/try_mutation.sh {prop} seeded/{sid}/patch.diff (git apply to /repo, ./check, git checkout)",
+        "checked_with": f"tools/try_mutation.sh {CHK.get(sid, (prop, ''))[0]} /verif/seeded/{sid}/patch.diff (git apply to /repo, ./check, git checkout); tools/seed_sweep.sh re-runs all of them",
         "detected": detected,
         "detected_by": by,
+        "detecting_check": CHK.get(sid, (prop, ""))[0],
+        "detecting_harness_filter": CHK.get(sid, (prop, ""))[1],
     }
-    if sid in ("C13-1", "C13-2"):
+    if sid in ("C13-1", "C13-2", "C13-3", "C13-4"):
         meta["confirmed_by"] = "as tools/confirm_seed.sh, with the demonstration run under go test -race (it fails with the patch: DATA RACE; passes without)"
     json.dump(meta, open(d + "/meta.json", "w"), indent=1)
 print("meta written for", len([s for s in T if os.path.isdir('/verif/seeded/' + s)]))
